@@ -16,7 +16,8 @@ from harness.util import call, req, fmt
 
 PID = "C20"
 LEVEL = "exploration"
-RULE = ("[sixth seeded round] sub-check 'joint': two lazy whitint results of one dask cube under two labelings with equally many periods, evaluated in one graph, must each equal their in-memory result. " +
+RULE = ("[seventh seeded round] sub-check 'buffers': the caller's template / label arrays refilled in place between whitint calls must be read afresh (oracle: brand-new arrays of the same content). " +
+        "[sixth seeded round] sub-check 'joint': two lazy whitint results of one dask cube under two labelings with equally many periods, evaluated in one graph, must each equal their in-memory result. " +
         "Hypothesis draws 5..120 (thorough ..400) int16 observations (classes random / seasonal / constant / linear in day number), mark "
         "spacings regular 5/8/10/16 days or irregular 1..20 days, 0..15 lead and tail days (daily length <= 4000), and contiguous daily "
         "labelings (pentad-, dekad-, month-like or irregular runs; label values ascending, descending or wrapping like dekad-of-year), through ops.tinterpolate and DataArray.hdc.whit.whitint. Oracle: "
@@ -171,7 +172,36 @@ def sub_joint(case):
     return "labelings_coincide" if np.array_equal(labels, labels2) or np.array_equal(ea.values, eb.values) else None
 
 
-SUBS = {"kernel": sub_kernel, "accessor": sub_accessor, "joint": sub_joint}
+def sub_buffers(case):
+    """The caller keeps ONE template array and ONE label array and refills them in place between whitint calls (another mark
+    layout / labeling of the same daily length): every call must answer for what the arrays hold at that moment - the same as a call
+    with brand-new arrays of the same content - and results handed out earlier must keep their values."""
+    x = np.array(case["x"], dtype="int16")
+    pos, template, labels, bounds = _layout(case)
+    tb, lb = template[::-1].copy(), (int(labels.max()) + int(labels.min()) - labels[::-1]).astype(labels.dtype)  # mirrored marks, mirrored runs
+    npx = case.get("npx", 2)
+    cube = np.stack([np.roll(x, k) for k in range(npx)]).reshape(npx, 1, x.size)
+    da = xr.DataArray(cube, dims=("y", "x", "time"), coords={"time": pd.date_range("2000-01-01", periods=x.size, freq="D")})
+    da = da.transpose(*case.get("dims", ["time", "y", "x"]))
+    fresh = {"A": call("whitint", lambda: da.hdc.whit.whitint(labels.copy(), template.copy())).values.copy(),
+             "B": call("whitint", lambda: da.hdc.whit.whitint(lb.copy(), tb.copy())).values.copy()}
+    tbuf, lbuf = template.copy(), labels.copy()
+    held = []
+    for step, which in enumerate(case.get("seq", ["A", "B", "A"])):
+        tbuf[:] = template if which == "A" else tb
+        lbuf[:] = labels if which == "A" else lb
+        other = fresh_da = da if step % 2 == 0 else da.copy(deep=True)  # the same cube object and a brand-new one in turn
+        res = call("whitint (refilled buffers)", lambda: other.hdc.whit.whitint(lbuf, tbuf))
+        req(res.shape == fresh[which].shape and np.array_equal(res.values, fresh[which]),
+            "whitint call %d with the caller's template / label arrays refilled in place (sequence %s) answers %s, brand-new arrays of the same content give %s" % (
+                step + 1, "".join(case.get("seq", ["A", "B", "A"])), fmt(res.values.ravel(), 12), fmt(fresh[which].ravel(), 12)), "whitint stale template / labels")
+        held.append((which, res))
+    for which, res in held:
+        req(np.array_equal(res.values, fresh[which]), "a whitint result handed out earlier changed afterwards", "whitint result aliased")
+    return "layouts_coincide" if np.array_equal(fresh["A"], fresh["B"]) and np.array_equal(template, tb) else None
+
+
+SUBS = {"kernel": sub_kernel, "accessor": sub_accessor, "joint": sub_joint, "buffers": sub_buffers}
 
 
 @st.composite
@@ -257,6 +287,15 @@ def run(ctx):
         if why:
             rec.discard("joint", why)
         rec.case("joint", case, nontrivial=why is None, cls=["kind:" + case["kind"], "labeling:" + case["labeling"]])
+
+    def f_b(case):
+        why = sub_buffers(case)
+        if why:
+            rec.discard("buffers", why)
+        rec.case("buffers", case, nontrivial=why is None, cls=["kind:" + case["kind"], "seq:" + "".join(case["seq"])])
+
+    ctx.given("buffers", st.builds(lambda c, q: dict(c, seq=q), tcase(40, accessor=True).filter(lambda c: c["kind"] != "constant"),
+                                   st.sampled_from([["A", "B", "A"], ["A", "B"], ["B", "A", "A", "B"], ["A", "A", "B"]])), ctx.n(150, 2000), fn=f_b)
 
     ctx.given("joint", tcase(40, accessor=True).filter(lambda c: c["kind"] != "constant"), ctx.n(120, 1500), fn=f_j)
 
